@@ -644,5 +644,5 @@ func TestC07_EndToEndLiveness(t *testing.T) {
 	})
 }
 
-// boundArrive is how long a "must happen" may take (10 s; shorter while shrinking, see ev.Bound).
-func boundArrive() time.Duration { return ev.Bound(10 * time.Second) }
+// boundArrive is how long a "must happen" may take (20 s: generous, an overloaded machine must not turn into a violation; shorter while shrinking, see ev.Bound).
+func boundArrive() time.Duration { return ev.Bound(20 * time.Second) }
